@@ -279,7 +279,7 @@ class Exec:
         s.ext = {}; s.ext_prefix = []
         import models
         models.register(s)
-        s.deftypes = {}; s.fns_executed = {}; s.t0 = time.time(); s.samples = []; s.ext_calls = {}; s.known = []; s.redirects = []; s.typeids = {}; s.lpcache = {}; s.root_frame = None
+        s.deftypes = {}; s.fns_executed = {}; s.t0 = time.time(); s.samples = []; s.ext_calls = {}; s.known = []; s.redirects = []; s.typeids = {}; s.lpcache = {}; s.root_frame = None; s.probes = []
 
     # ---------- solver
     def _check(s, assumptions):
@@ -608,6 +608,18 @@ class Exec:
         return Ptr(hi, v & 0xffffffff) if 0 < hi < FNBASE else Ptr(0, v)
 
     def read_cstr(s, st, p, maxlen=4096):
+        # string literals (constant globals, same object ids in every state of this Exec) are decoded once
+        ck = None
+        if isinstance(p, Ptr) and isinstance(p.obj, int) and isinstance(p.off, int):
+            o = st.mem.get(p.obj)
+            if o is not None and o.kind == 'const' and o.alive:
+                ck = (p.obj, p.off); c = s.__dict__.setdefault('_cstr_cache', {}).get(ck)
+                if c is not None: return c
+        r = s._read_cstr(st, p, maxlen)
+        if ck is not None: s._cstr_cache[ck] = r
+        return r
+
+    def _read_cstr(s, st, p, maxlen=4096):
         out = []
         for k in range(maxlen):
             c = s.load(st, IntT(8), s.padd(p, k))
@@ -1332,6 +1344,16 @@ class Exec:
             nf = Frame(f, m, dst, normal, unwind)
             if len(avs) != len(f.params): raise Inconclusive('call arity mismatch for ' + name)
             for (t, n), a in zip(f.params, avs): nf.env[n] = a
+            # //@probe REGEX TARGET: the kernel-defined void TARGET(void) runs on entry of every matching function
+            # (frame stacked on top of the callee's frame, so the callee starts when the probe returns)
+            for rx, tgt in s.probes:
+                if rx.search(name) and tgt in s.fn_of and name != tgt:
+                    pf_, pm_ = s.fn_of[tgt]
+                    if pf_.params: raise Inconclusive('probe %s must take no arguments' % tgt)
+                    s.ext_calls['probe:' + tgt] = s.ext_calls.get('probe:' + tgt, 0) + 1
+                    st.frames.append(nf); s.fns_executed[name] = f.ninstr
+                    st.frames.append(Frame(pf_, pm_, None, None, None)); s.fns_executed[tgt] = pf_.ninstr
+                    return None
             if len(st.frames) > s.lim.depth:
                 mm = s.feasible(st)
                 if mm is None: raise PathEnd('infeasible')
